@@ -39,7 +39,17 @@ pub fn templates() -> Vec<Template> {
         "O|-- x\nT0|# <block name=\"a\" affects=\":b\">\nC|++ y\nC|@@ -1 +1 @@\nC|--- a/x.py\nE0|# </block>\nO|diff --git a/x.py b/x.py\nT1|# <block name=\"b\">\nC|+++ b/x.py\nC|\\ No newline at end of file\nE1|# </block>",
     );
     t7.trailing_newline = false;
-    vec![
+    // T8: no trailing newline and an *outside* last line (git prints its `\ No newline` marker
+    // between the `-` and `+` lines of an edit there); block names that contain a colon,
+    // referenced in the same file and across files.
+    let mut t8 = lfile(
+        "x.py",
+        "{} = 0",
+        "O|import os\nT0|# <block name=\"a\" affects=\":ns:b, w.py:ns:c\">\nC|k1 = 1\nC|k2 = 2\nE0|# </block>\nO|mid = 0\nT1|# <block name=\"ns:b\">\nC|v1 = 1\nC|v2 = 2\nC|v3 = 3\nE1|# </block>\nO|tail = 0",
+    );
+    t8.trailing_newline = false;
+    let t8w = lfile("w.py", "{} = 0", "O|first = 0\nT2|# <block name=\"ns:c\">\nC|w1 = 1\nE2|# </block>\nO|last = 0");
+    let mut all = vec![
         Template {
             name: "T1-siblings",
             files: vec![lfile(
@@ -112,7 +122,13 @@ pub fn templates() -> Vec<Template> {
             blocks: vec![spec(0, 0, Some("a"), &[(None, "b")]), spec(1, 0, Some("b"), &[])],
         },
         Template { name: "T7-diff-syntax-payload", files: vec![t7], blocks: vec![spec(0, 0, Some("a"), &[(None, "b")]), spec(1, 0, Some("b"), &[])] },
-    ]
+    ];
+    all.push(Template {
+        name: "T8-no-newline-colon-names",
+        files: vec![t8, t8w],
+        blocks: vec![spec(0, 0, Some("a"), &[(None, "ns:b"), (Some("w.py"), "ns:c")]), spec(1, 0, Some("ns:b"), &[]), spec(2, 1, Some("ns:c"), &[])],
+    });
+    all
 }
 
 #[derive(Clone, Debug, Hash, PartialEq, Eq)]
@@ -348,10 +364,12 @@ pub fn judge(t: &Template, new: &[LFile], diff: &str, context: usize, input: &Va
     let class = |file: &str| format!("{}{}", features.get(file).cloned().unwrap_or_default(), if mispaired.iter().any(|f| f == file) { ":paired-across-block-boundary" } else { "" });
     let files: Vec<(String, String)> = new.iter().map(|f| (f.name.to_string(), f.text())).collect();
     let describe = |extra: &str| format!("{} -U{context}: {extra}\n--- diff ---\n{diff}", t.name);
-    for with_glob in [true, false] {
+    // Without path arguments, with `**`, and with a path argument that matches no file (the
+    // diff's files stay in scope all the same).
+    for (mode, globs) in [("diff+glob", vec!["**".to_string()]), ("diff", vec![]), ("diff+glob-matching-nothing", vec!["nomatch/**".to_string()])] {
+        let with_glob = mode == "diff+glob";
         sink.exec();
-        let outcome = librun::run(&Input { files: files.clone(), diff: Some(diff.to_string()), globs: if with_glob { vec!["**".into()] } else { vec![] }, ..Default::default() });
-        let mode = if with_glob { "diff+glob" } else { "diff" };
+        let outcome = librun::run(&Input { files: files.clone(), diff: Some(diff.to_string()), globs, ..Default::default() });
         let (dump, diags) = match &outcome {
             Outcome::Report { blocks, diags } => (blocks.clone(), diags.clone()),
             Outcome::Error { stage, message, .. } if *stage == "diff" => {
@@ -418,6 +436,8 @@ pub struct C01Space {
     pub contexts: Vec<usize>,
     /// Only replacements (no insertions/deletions): a smaller alphabet for one more level of depth.
     pub replacements_only: bool,
+    /// Only fresh insertions anywhere in the first file and edits of its last line.
+    pub insertions_and_last_line: bool,
 }
 
 thread_local! {
@@ -488,6 +508,14 @@ impl Space for C01Space {
         difflab::edits(&s.files)
             .into_iter()
             .filter(|e| !self.replacements_only || matches!(e, Edit::Rep { .. }))
+            .filter(|e| {
+                !self.insertions_and_last_line
+                    || match e {
+                        Edit::Ins { file, dup, .. } => *file == 0 && !dup,
+                        Edit::Rep { file, idx, .. } | Edit::Del { file, idx } => *file == 0 && *idx + 1 == s.files[0].lines.len(),
+                        _ => false,
+                    }
+            })
             .map(|e| {
                 let files = difflab::apply(&s.files, &e, s.depth as usize + 1);
                 let mut history = s.history.clone();
@@ -659,7 +687,7 @@ fn modes_case(cfg: &Cfg, t: &Template, ti: usize, s: &State, sink: &Sink) {
 }
 
 pub fn run(cfg: &Cfg, sink: &Arc<Sink>) -> Report {
-    let mut report = Report::new("states = repository contents reached from a labelled template (7 templates: siblings, cross-file Markdown/HTML, nested, Rust multi-line tag in a 3-line comment, cycle + duplicate names + missing target + unnamed, repeated/blank lines, diff-syntax payload without trailing newline) by line insertions (fresh or duplicate of the neighbour), deletions and replacements at every position, and tag-line edits that keep tags balanced; states with equal contents are merged; in every state real `git diff -U<k>` is taken against the template and the real code runs in diff and diff+glob mode; oracle L1: a block must be content-modified if a `-` old line or `+` new line of the diff is labelled content of it, must not be if no changed line is inside it, on its tag comments or adjoining them, else don't care; L2: affects diagnostics = per modified block with `affects`, one per referenced (file, name) without a modified block of that name; L3: status 1 iff L2 non-empty; non-trivial = every state ≠ template");
+    let mut report = Report::new("states = repository contents reached from a labelled template (8 templates: siblings, cross-file Markdown/HTML, nested, Rust multi-line tag in a 3-line comment, cycle + duplicate names + missing target + unnamed, repeated/blank lines, diff-syntax payload without trailing newline, a file without trailing newline ending in an outside line with colon-holding block names referenced in and across files) by line insertions (fresh or duplicate of the neighbour), deletions and replacements at every position, and tag-line edits that keep tags balanced; states with equal contents are merged; in every state real `git diff -U<k>` is taken against the template and the real code runs without path arguments, with `**` and with a path argument matching nothing; oracle L1: a block must be content-modified if a `-` old line or `+` new line of the diff is labelled content of it, must not be if no changed line is inside it, on its tag comments or adjoining them, else don't care; L2: affects diagnostics = per modified block with `affects`, one per referenced (file, name) without a modified block of that name; L3: status 1 iff L2 non-empty; non-trivial = every state ≠ template");
     report.assume("git 2.39 produces the diffs; the own diff reader is driven by @@ counts only");
     report.assume("labels of old and new lines are known by construction; tag lines are never deleted, so every block exists in both trees");
     let n = templates().len();
@@ -673,7 +701,7 @@ pub fn run(cfg: &Cfg, sink: &Arc<Sink>) -> Report {
         report.phase(engine::explore(
             name,
             &format!("all edit histories of length ≤{depth} × -U{contexts:?} × {{diff, diff+glob}}"),
-            C01Space { template: ti, max_depth: depth, contexts: contexts.clone(), replacements_only: false },
+            C01Space { template: ti, max_depth: depth, contexts: contexts.clone(), replacements_only: false, insertions_and_last_line: false },
             sink,
             cfg.threads,
             false,
@@ -687,7 +715,21 @@ pub fn run(cfg: &Cfg, sink: &Arc<Sink>) -> Report {
         report.phase(engine::explore(
             &format!("{name}, replacements only"),
             &format!("all histories of ≤{depth} line replacements and tag-line edits × -U[0, 3] × {{diff, diff+glob}}"),
-            C01Space { template: ti, max_depth: depth, contexts: vec![0, 3], replacements_only: true },
+            C01Space { template: ti, max_depth: depth, contexts: vec![0, 3], replacements_only: true, insertions_and_last_line: false },
+            sink,
+            cfg.threads,
+            false,
+        ));
+    }
+    // Insertions above an edited last line of a file without trailing newline, one level deeper.
+    {
+        let ti = n - 1;
+        let name = templates()[ti].name;
+        let depth = depth_all + 1;
+        report.phase(engine::explore(
+            &format!("{name}, insertions and last-line edits only"),
+            &format!("all histories of ≤{depth} fresh insertions anywhere in the first file and edits of its last line × -U[0, 3] × 3 path-argument modes"),
+            C01Space { template: ti, max_depth: depth, contexts: vec![0, 3], replacements_only: false, insertions_and_last_line: true },
             sink,
             cfg.threads,
             false,
